@@ -21,10 +21,13 @@ use std::sync::Arc;
 
 pub const REWARD: u64 = 60_000_000_000;
 
+/// process-wide default of the per-thread NRD flag (set by engines whose worker threads run an NRD universe)
+pub static NRD_DEFAULT: std::sync::atomic::AtomicBool = std::sync::atomic::AtomicBool::new(false);
+
 /// Per-thread globals; call in every thread that touches grin code.
 pub fn init_thread() {
 	global::set_local_chain_type(ChainTypes::AutomatedTesting);
-	global::set_local_nrd_enabled(false);
+	global::set_local_nrd_enabled(NRD_DEFAULT.load(std::sync::atomic::Ordering::SeqCst));
 	global::set_local_accept_fee_base(1);
 }
 
